@@ -285,6 +285,7 @@ def gen_storm(st):
     scn["enabled"] = mask
     scn["partition"] = [st.pick((0.0, 1.0, 10.0)), st.pick((0.5, 5.0, 60.0, 300.0))] if st.coin(1, 8, "partition?") else None
     crashes_on = not st.coin(1, 5, "no-crashes")
+    scn["same_pid"] = n_actors > 1 and st.coin(1, 8, "same-pid-namespaces")
     actors = []
     for i in range(n_actors):
         a = {}
@@ -362,6 +363,7 @@ class Run:
         self.base = importlib.import_module("traffic_weaver.datasets._base")
         self.datasets = importlib.import_module("traffic_weaver.datasets")
         self.phase = "setup"
+        self.storm_t0 = 0.0
         self.conflict = []
 
     # -- world
@@ -412,21 +414,25 @@ class Run:
         a.attrs["net_calls"] = a.attrs.get("net_calls", 0) + 1
         a.attrs.setdefault("urls", []).append(url)
         ds = self.world.by_url.get(url)
-        sim.yield_point(a, "net.before", ds.name if ds else "unknown-url")
+        k = a.attrs.get("attempt", 0)
+        plan = a.attrs.get("plan") or []
+        att = plan[k] if k < len(plan) else {"kind": "ok", "latency": 0.05, "chunks": 1}
+        latency = att.get("latency", 0.05)
+        nchunks = max(1, att.get("chunks", 1))
+        # the connection takes a share of the attempt's latency, the body transfer the rest (per chunk)
+        sim.yield_point(a, "net.before", ds.name if ds else "unknown-url", cost=latency / (nchunks + 1))
         if a.attrs.get("net_mode") == "down":
             a.attrs["touched"] = True
             raise K.NetworkTouched(url)
-        k = a.attrs.get("attempt", 0)
         a.attrs["attempt"] = k + 1
-        plan = a.attrs.get("plan") or []
-        att = plan[k] if k < len(plan) else {"kind": "ok", "latency": 0.05, "chunks": 1}
         kind = att["kind"]
-        a.vclock += att.get("latency", 0.05) * a.speed
+        a.attrs["chunk_cost"] = latency / (nchunks + 1)
         part = self.scn.get("partition")
-        if part and part[0] <= a.vclock < part[0] + part[1] and self.phase == "storm":
+        t_now = sim.vtime - self.storm_t0
+        if part and part[0] <= t_now < part[0] + part[1] and self.phase == "storm":
             kind = "urlerror"
             sim.stats["fault:partition"] += 1
-        elif part and a.vclock >= part[0] + part[1] and self.phase == "storm":
+        elif part and t_now >= part[0] + part[1] and self.phase == "storm":
             sim.stats["probe:partition-healed"] += 1
         if kind != "ok":
             sim.stats["fault:" + kind] += 1
@@ -471,6 +477,7 @@ class Run:
             cuts = [n * i // chunks for i in range(chunks + 1)]
             for i in range(chunks):
                 if cuts[i + 1] > cuts[i] or chunks == 1:
+                    a.next_cost = a.attrs.get("chunk_cost")
                     f.write(body[cuts[i]:cuts[i + 1]])
         return filename, {}
 
@@ -533,6 +540,8 @@ class Run:
         a.crash_site = (cs[0], cs[1]) if cs else None
         if spec.get("collide"):
             a.name_collide = "00n001x"
+        if self.scn.get("same_pid"):
+            a.attrs["pid"] = 1
         a.attrs["first_step"] = None
         a.attrs["last_step"] = None
         return a
@@ -651,6 +660,16 @@ class Run:
         return False
 
     def judge(self, a):
+        self._judge(a)
+        # the returned arrays belong to the caller: once judged, modify them in place (as callers do); no later
+        # load, by anyone, may be affected by that
+        if a.attrs["spec"].get("raw_name") is None and a.state == K.DONE:
+            parts = a.result if isinstance(a.result, tuple) else (a.result,)
+            for part in parts:
+                if isinstance(part, np.ndarray) and part.size and part.flags.writeable:
+                    part[...] = -1.0 - part[::-1]
+
+    def _judge(self, a):
         spec = a.attrs["spec"]
         if spec.get("raw_name") is not None:
             return
@@ -752,8 +771,7 @@ class Run:
                             self.fail("P5/healthy-load-failed", key,
                                       f"{who}: {f} absorbed failure(s) then a genuine download, no concurrent loader, "
                                       f"yet the load raised {type(exc).__name__}: {exc}")
-        if a.attrs.get("slept", 0) and spec.get("delay") is not None:
-            pass
+
 
     # -- phases
     def setup(self):
@@ -790,11 +808,17 @@ class Run:
             os.makedirs(os.path.join(d, "tmp00n001x"), exist_ok=True)      # the name actor 0 would pick first
             with open(os.path.join(d, "tmp00n001x", ds.slot), "wb") as f:
                 f.write(b"\x80\x04\x95partial")
+            old = K.CLOCK_BASE - 3600.0          # left behind by a load that was killed an hour ago
+            for sub in ("tmplitter0", "tmp00n001x"):
+                for pth in (os.path.join(d, sub, ds.remote_filename), os.path.join(d, sub, ds.slot), os.path.join(d, sub)):
+                    if os.path.exists(pth):
+                        os.utime(pth, (old, old))
             self.stats["probe:started-with-litter"] += 1
 
     def storm(self):
         scn = self.scn
         self.phase = "storm"
+        self.storm_t0 = self.sim.vtime
         self.sim.discipline = scn.get("discipline", "sticky")
         self.sim.pct_points = set(p + self.sim.step for p in scn.get("pct_points", ()))
         actors = []
@@ -802,6 +826,9 @@ class Run:
             a = self.spawn_loader(spec, role=f"loader{i}")
             a.priority = (i * 7919) % 13
             actors.append(a)
+        if self.sim.discipline == "script":
+            self.sim.script = [list(seg) for seg in scn.get("script", [])]
+            self.sim.script_actors = actors
         self.sim.run(on_step=self.on_step, step_cap=STEP_CAP)
         for a in actors:
             self.judge(a)
@@ -966,6 +993,24 @@ def run_unit(params, seed):
             out.add(p, _run(p, S.Stream(seed=seed)))
         out.stats["sweep:crash-points-enumerated"] += n
         return out
+    if gen == "pairsweep":
+        # two context switches, enumerated: A runs i steps, B runs j steps (and is then killed, or not), A finishes,
+        # B finishes.  Every (i, j) of the base scenario is executed.
+        base = params["scenario"]
+        i = params["i"]
+        nb = params["nb"]
+        for j in range(1, nb + 1):
+            for kill in (False, True):
+                import copy
+                scn = copy.deepcopy(base)
+                scn["discipline"] = "script"
+                scn["script"] = [[0, i], [1, j], [0, 10 ** 6], [1, 10 ** 6]]
+                if kill:
+                    scn["actors"][1]["crash_at"] = j
+                p = {"gen": "scn", "scenario": scn}
+                out.add(p, _run(p, S.Stream(seed=seed)))
+        out.stats["pairsweep:schedules-enumerated"] += 2 * nb
+        return out
     res = _run(params, S.Stream(seed=seed))
     out.add(params, res)
     return out
@@ -1041,9 +1086,34 @@ def pair_scenario(a, b):
             "actors": [_actor_spec(a, via="load_dataset"), _actor_spec(b, via="load_dataset")]}
 
 
+def pairsweep_scenarios(tier):
+    """Base scenarios with two loaders of one dataset for the enumerated two-context-switch schedules."""
+    out = []
+    variants = [("cold", False, False, False), ("cold", True, False, False), ("warm", False, True, False),
+                ("cold", True, False, True)]
+    if tier != "quick":
+        variants += [("cold+litter", True, False, False), ("warm", True, True, True), ("cold", False, False, True)]
+    for setup, slow, force, gz in variants:
+        a = _actor_spec("syn-x", force=force, n_retries=1, delay=0.25, split=2,
+                        plan=[{"kind": "ok", "latency": 120.0 if slow else 0.2, "chunks": 2}], speed=30.0 if slow else 1.0)
+        b = _actor_spec("syn-x", force=force, n_retries=1, delay=0.25, split=0,
+                        plan=[{"kind": "ok", "latency": 0.2, "chunks": 2}])
+        out.append({"gen": "scn", "world": "synthetic", "gzip": gz, "rows": [30, 1, 5], "targets": ["syn-x"],
+                    "setup": setup, "home": "env", "discipline": "serial", "enabled": [], "partition": None,
+                    "same_pid": setup == "cold" and not slow and not gz, "actors": [a, b]})
+    return out
+
+
 def plan(tier, verif_seed):
     rng = random.Random(verif_seed * 1000003 + 19)
     units = []
+    for scn in pairsweep_scenarios(tier):
+        # learn how many yield points each of the two loaders has when run one after the other
+        r0 = _run({"gen": "scn", "scenario": scn}, S.Stream(seed=1))
+        na = _yields_of(r0, 0) + 1
+        nb = max(na, _yields_of(r0, 1) + 1) + 8      # the second loader may download too, and take a longer path
+        for i in range(0, na + 1):
+            units.append({"gen": "pairsweep", "scenario": scn, "i": i, "nb": nb})
     bases = base_scenarios()
     for scn in bases:
         units.append({"gen": "sweep", "scenario": scn, "crash_actor": 0})
@@ -1101,6 +1171,8 @@ def describe():
         "extra": {"bounds": {"actors": "1..16", "steps_per_run": STEP_CAP, "payload_rows": "3..1500",
                              "n_retries": "0..4", "calm_phase_step_budget": CALM_STEP_BUDGET},
                   "exhaustive_subspaces": ["crash points of the base scenarios (G-sweep)", "retry table (G-retry)",
+                                           "two-context-switch schedules of two loaders, with and without a kill of "
+                                           "the second (G-pairsweep)",
                                            "ordered dataset pairs (G-pairs; thorough tier only)"]},
     }
 
